@@ -23,6 +23,7 @@
 //!   R8 X.iter().cloned().zip(Y.into_iter()).collect()   -> verif_zip_collect(X, Y)
 //!   R9 closure header `|x|` -> annotated header from `//@closure n` (types, result name, ensures); body verbatim
 //!   R10 `for P in E` -> `for P in it: E` when the loop contract names the ghost iterator (`//@loop n iter=it`)
+//!   R11b `Zip::from(&mut T).and(X).and(Y).for_each(|r, p, q| BODY)` -> loop over (logical index, x, y) with `*r` read/written through T.verif_get / T.verif_set
 //!   R12 invocations of the crate's own single-rule macro_rules macros (src/lib.rs) are expanded textually
 //!   R10h (`//@loop n iter=it hoist`) `for P in E {` -> `let __itN = verif_hoist(E); let ghost __itsN = __itN@; for P in it: __itN {`
 //!   R14 (with R10h) `V.into_iter().rev()` -> `verif_rev_vec(V)`
@@ -607,6 +608,69 @@ impl<'a, 'ast> Visit<'ast> for Scanner<'a> {
                             self.record_call("verif_zip2".into());
                             syn::visit::visit_expr(self, &cl.body);
                             return;
+                        }
+                    }
+                }
+            }
+        }
+        // R11b: Zip::from(&mut T).and(X).and(Y).for_each(|r, P1, P2| BODY)  (element-wise assignment into T)
+        //   -> let __zip = verif_zip3_idx(X, Y); let ghost __zs = __zip@;
+        //      for (__i, P1', P2') in it: __zip { <R13 lets> let mut __slot = T.verif_get(__i); BODY[*r := __slot] ; T.verif_set(__i, __slot); }
+        if c.method == "for_each" && c.args.len() == 1 {
+            if let (syn::Expr::MethodCall(and2), syn::Expr::Closure(cl)) = (&*c.receiver, &c.args[0]) {
+                if and2.method == "and" && and2.args.len() == 1 && cl.inputs.len() == 3 {
+                    if let syn::Expr::MethodCall(and1) = &*and2.receiver {
+                        if and1.method == "and" && and1.args.len() == 1 {
+                            if let syn::Expr::Call(fc) = &*and1.receiver {
+                                let is_zip_from = if let syn::Expr::Path(p) = &*fc.func { let v: Vec<String> = p.path.segments.iter().map(|x| x.ident.to_string()).collect(); v.len() >= 2 && v[v.len() - 2] == "Zip" && v[v.len() - 1] == "from" } else { false };
+                                let target = if fc.args.len() == 1 { if let syn::Expr::Reference(rf) = &fc.args[0] { if rf.mutability.is_some() { Some(self.text(rf.expr.span()).to_string()) } else { None } } else { None } } else { None };
+                                let mut rid = vec![];
+                                pat_idents(&cl.inputs[0], &mut rid);
+                                if let (true, Some(tgt), true, Some(rname)) = (is_zip_from, target, matches!(&*cl.body, syn::Expr::Block(_)), rid.first().cloned()) {
+                                    if matches!(&cl.inputs[0], syn::Pat::Ident(_)) {
+                                        let (a, _) = self.src.range(c.span());
+                                        let (bs, be) = self.src.range(cl.body.span());
+                                        let xs = self.text(and1.args[0].span()).to_string();
+                                        let ys = self.text(and2.args[0].span()).to_string();
+                                        // parameter patterns of the two read-only operands; `&x` is desugared as in R13
+                                        let mut pats = vec![];
+                                        let mut lets = String::new();
+                                        for k in 1..3 {
+                                            let mut refs = vec![];
+                                            ref_pats(&cl.inputs[k], &mut refs);
+                                            if refs.len() == 1 && matches!(&cl.inputs[k], syn::Pat::Reference(_)) {
+                                                pats.push(format!("__ref_{}", refs[0].1));
+                                                lets.push_str(&format!(" let {} = *__ref_{};", refs[0].1, refs[0].1));
+                                            } else {
+                                                pats.push(self.text(cl.inputs[k].span()).to_string());
+                                            }
+                                        }
+                                        self.scan.rewrites.push((a, bs, format!("let __zip = verif_zip3_idx({}, {}); let ghost __zs = __zip@; for (__i, {}, {}) in it: __zip ", xs.trim(), ys.trim(), pats[0], pats[1]), "R11b".into()));
+                                        self.scan.rewrites.push((bs + 1, bs + 1, format!("{} let mut __slot = {}.verif_get(__i);", lets, tgt.trim()), "R11b".into()));
+                                        let (_, ce) = self.src.range(c.span());
+                                        self.scan.rewrites.push((be - 1, be - 1, format!("; {}.verif_set(__i, __slot);", tgt.trim()), "R11b".into()));
+                                        self.scan.rewrites.push((be, ce, String::new(), "R11b".into()));
+                                        // `*r` -> `__slot` inside the body
+                                        struct Derefs<'b> { name: String, src: &'b SrcFile, out: Vec<(usize, usize)> }
+                                        impl<'b, 'ast> Visit<'ast> for Derefs<'b> {
+                                            fn visit_expr_unary(&mut self, u: &'ast syn::ExprUnary) {
+                                                if let (syn::UnOp::Deref(_), syn::Expr::Path(p)) = (&u.op, &*u.expr) {
+                                                    if p.path.is_ident(&self.name) { self.out.push(self.src.range(u.span())); return; }
+                                                }
+                                                syn::visit::visit_expr_unary(self, u);
+                                            }
+                                        }
+                                        let mut dv = Derefs { name: rname, src: self.src, out: vec![] };
+                                        dv.visit_expr(&cl.body);
+                                        for (da, db) in dv.out { self.scan.rewrites.push((da, db, "__slot".into(), "R11b".into())); }
+                                        let (s0, e0) = self.src.range(c.span());
+                                        self.scan.loops.push((bs, be - 1, s0, e0));
+                                        self.record_call("verif_zip3_idx".into());
+                                        syn::visit::visit_expr(self, &cl.body);
+                                        return;
+                                    }
+                                }
+                            }
                         }
                     }
                 }
